@@ -8,6 +8,9 @@ COMMON_ASSUMPTIONS = [
     "verdict is about the executions observed in this run only",
 ]
 
+_SCALARS = ["string", "key", "bool", "int32", "sint32", "int64", "sint64", "uint32", "uint64", "float", "double", "bytes", "timestamp", "date", "decimal"]
+CODEC_FLOORS = ["v:%s@%s" % (k, p) for k in _SCALARS for p in ["singular", "optional", "array", "map", "oneof-arm", "flattened", "depth3"]]
+
 PROPS = {
     "C20": {
         "level_text": 'The real id62 package is executed on boundary identifiers (all-zero, all-one, single bits, leading-zero-byte counts, 62^k±2, 2^128-1), 10^6 (quick) / 10^8 (thorough) PRNG-uniform identifiers and systematic + random strings; oracles: length 22, published pattern, Parse(String(id)) == id, positional base-62 reference for Parse, rejection of values >= 2^128, no panic, NewHash equal across calls, goroutines and worker processes.',
@@ -51,6 +54,27 @@ PROPS = {
         "floors": ["fmt:systematic", "fmt:repo-file", "fmt:generated", "c19:accepted", "c19:has-edits", "c19:multi-edit", "c19:escaped-newline", "c19:block-comment", "c19:description", "c19:blank-lines"],
         "assumptions": COMMON_ASSUMPTIONS + [
             "edits are applied the way the LSP server hands them to editors (internal/bcl/genlsp/format.go): an edit replaces the text from the start of line From to the start of line To, positions past the last line clamp to the end of the document, all edits refer to the original document; number of lines = number of '\\n' + 1",
+        ],
+    },
+    "C01": {
+        "level_text": "The real codec (through lib/j5codec) encodes and decodes generated messages of generated types: a systematic type holding every scalar format in every container position populated from boundary-value tables, random messages, random J5-subset .proto files compiled through the repository's protosrc; oracle: encode succeeds, decode of the output succeeds, decode(encode(m)) == m under the statement's normalisation (decimals numerically, empty flattened object == absent, Any by decoded content).",
+        "level_note": "Generated types and values, not all; value generator and normaliser are harness code driven by the harness's own type model.",
+        "shards": 16,
+        "rule": "cases: (1) the systematic 'sink' type (every scalar format in singular/optional/array/map/oneof-arm/flattened/depth>=3 position, enums, objects, three kinds of oneof wrapper, exposed oneof, both Any kinds, recursion) populated from per-kind boundary value tables at every table index; (2) random messages of the sink types; (3) random J5-subset .proto files compiled through protosrc with systematic + random messages of every message type; (4) types compiled from generated j5s (in-memory and printed-text path). Non-trivial = message with >=1 set field; distinct by hash of (type, deterministic serialisation).",
+        "floors": CODEC_FLOORS + ["codec:random-model"],
+        "assumptions": COMMON_ASSUMPTIONS + [
+            "equality is proto.Equal after the normalisation the statement allows: decimals compared numerically, set-but-empty flattened sub-message == absent, Any compared by type name + decoded inner message",
+            "messages are populated through dynamicpb from descriptors linked with protodesc.NewFiles",
+        ],
+    },
+    "C08": {
+        "level_text": "On the same executions every encoder output is parsed with the harness's strict RFC 8259 parser (single document, escapes, number grammar, no duplicate keys) and compared with a reference rendering of the documented wire format computed from the type model by harness code; out-of-domain values (NaN/Inf, out-of-range dates/timestamps, malformed decimals, invalid UTF-8, undefined enum numbers) are judged for well-formedness only.",
+        "level_note": 'Reference renderer is harness code following the README table; member order and the number of fraction digits of timestamps are not judged.',
+        "shards": 16,
+        "rule": "same executions as C01 (encode side); every encoder output is re-read with the harness's strict RFC 8259 parser and compared, member order aside, with a reference rendering computed from the type model and the message by harness code. Non-trivial = message with >=1 set field; distinct by hash of (type, deterministic serialisation).",
+        "floors": CODEC_FLOORS + ["codec:random-model", "c08:nonfinite", "c08:date-range"],
+        "assumptions": COMMON_ASSUMPTIONS + [
+            "reference rendering follows README 'Scalar Types', 'Oneof', 'Enum': 32-bit ints/floats/bools bare, 64-bit ints and decimals quoted, bytes padded std base64, timestamps RFC 3339 ending in Z denoting the same instant (fraction digits not judged), dates zero-padded YYYY-MM-DD, enums short name; floats judged by 'bare literal parsing back to the same value'",
         ],
     },
 }
